@@ -47,10 +47,25 @@ def run_shard(prop, sub, tier, k, nshards, seed, tmp, hashseed):
     for v in ("OMP_NUM_THREADS", "OPENBLAS_NUM_THREADS", "MKL_NUM_THREADS"):
         env[v] = "1"
     cmd = [sys.executable, "-m", "vf.shard", prop, sub, tier, str(k), str(nshards), str(seed), out]
+    proc = subprocess.Popen(cmd, env=env, cwd=HERE, stdout=subprocess.PIPE, stderr=subprocess.PIPE, text=True)
     try:
-        p = subprocess.run(cmd, env=env, cwd=HERE, capture_output=True, text=True, timeout=SHARD_TIMEOUT[tier])
+        so, se = proc.communicate(timeout=int(os.environ.get("VF_SHARD_TIMEOUT", SHARD_TIMEOUT[tier])))
     except subprocess.TimeoutExpired:
-        return {"sub": sub, "shard": k, "hashseed": str(hashseed), "inconclusive": "time box expired"}
+        where = ""
+        try:
+            import signal
+            import time as _t
+
+            proc.send_signal(signal.SIGUSR1)
+            _t.sleep(2)
+            with open(os.path.join(env["VF_TMP"], "stack.txt")) as f:
+                where = f.read()[-3000:]
+        except Exception:  # noqa: BLE001
+            pass
+        proc.kill()
+        proc.communicate()
+        return {"sub": sub, "shard": k, "hashseed": str(hashseed), "inconclusive": "time box expired", "stack": where}
+    p = subprocess.CompletedProcess(cmd, proc.returncode, so, se)
     if not os.path.exists(out):
         return {
             "sub": sub,
@@ -121,6 +136,9 @@ def main(argv):
 
     harness_errors = [r for r in results if r.get("harness_error")]
     inconclusive = [f"{r['sub']}#{r['shard']}" for r in results if r.get("inconclusive")]
+    for r in results:
+        if r.get("inconclusive") and r.get("stack"):
+            print(f"  inconclusive shard {r['sub']}#{r['shard']}: time box expired; Python stack at that moment:\n" + r["stack"], file=sys.stderr)
     ok = [r for r in results if not r.get("harness_error") and not r.get("inconclusive")]
 
     cases = sum(r["cases"] for r in ok)
